@@ -457,8 +457,8 @@ func c53NewWorld(rt *rapid.T) *c53World {
 		w.A[p], prev = c, c
 		w.genuine[p] = append(w.genuine[p], c)
 	}
-	for _, br := range []string{"B", "C"} {
-		f := w.p0 + uint64(rapid.IntRange(1, 6).Draw(rt, "fork"+br))
+	for _, br := range []string{"B", "C", "D"} {
+		f := w.p0 + uint64(rapid.IntRange(2, 6).Draw(rt, "fork"+br))
 		prev = w.A[f]
 		depth := rapid.IntRange(1, 4).Draw(rt, "depth"+br)
 		for p := f + 1; p <= last && p <= f+uint64(depth); p++ {
@@ -481,6 +481,9 @@ func c53NewWorld(rt *rapid.T) *c53World {
 					fin := rapid.Bool().Draw(rt, "fin")
 					if ch.name[0] != 'A' && v == 0 { // alternative edges get one strong variant so that reorgs happen
 						signers, fin = 512, true
+					}
+					if ch.name[0] == 'A' && len(par.children) > 1 && signers >= c53Supermajority {
+						fin = false // ... and the main edge at a fork point is never finalized, so the strong variant wins
 					}
 					ver := rapid.SampledFrom(versions).Draw(rt, "version")
 					off := uint64(rapid.SampledFrom([]int{1, 2, 100, 2000, 4096, 8190}).Draw(rt, "attOff"))
@@ -517,8 +520,10 @@ type c53Run struct {
 	clock *mclock.Simulated
 	chain *CommitteeChain
 	oplog []string
+	st    *vs.S
 	// coverage
 	reorgs, branchOnly, accepted, rejectedForged, hdrTrue, hdrFalse, reopens int
+	outcomes                                                                map[string]int
 }
 
 type c53Snap struct {
@@ -608,11 +613,19 @@ func (x *c53Run) proper(u *types.LightClientUpdate) (ok bool, why string) {
 	panic(fmt.Sprintf("VERIF-HARNESS-BUG: properly signed update of %s proves a root outside the tree", signer.name))
 }
 
+func (x *c53Run) outcome(s string) {
+	if x.outcomes == nil {
+		x.outcomes = map[string]int{}
+	}
+	x.outcomes[s]++
+}
+
 func (x *c53Run) logf(format string, a ...any) {
 	x.oplog = append(x.oplog, fmt.Sprintf(format, a...))
 }
 
 func (x *c53Run) fatal(rt *rapid.T, format string, a ...any) {
+	x.st.MarkFailed() // rapid re-runs the property while shrinking; stop counting
 	rt.Fatalf("%s\nhistory (threshold=%d enforceTime=%v p0=%d):\n  %s", fmt.Sprintf(format, a...), x.w.thr, x.w.enforce, x.w.p0, strings.Join(x.oplog, "\n  "))
 }
 
@@ -755,6 +768,9 @@ func (x *c53Run) deliverUpdate(rt *rapid.T, label string, u *types.LightClientUp
 	}
 	x.logf("update[%s] period=%d signers=%d fin=%v proper=%v(%s) next=%x nc=%v -> validate=%v insert=%v", label, per, signers, u.FinalizedHeader != nil, ok, why, u.NextSyncCommitteeRoot[:4], ncp != nil, verr, err)
 	after := x.snap()
+	if hadNext != nil && hadNext.root != u.NextSyncCommitteeRoot {
+		x.outcome(fmt.Sprintf("competing-update proper=%v(%s) -> %v", ok, why, err))
+	}
 	if !ok {
 		if d := before.diff(after); d != "" {
 			x.fatal(rt, "an update that is not properly signed/proven (%s) CHANGED the chain: %s", why, d)
@@ -794,6 +810,9 @@ func (x *c53Run) deliverUpdate(rt *rapid.T, label string, u *types.LightClientUp
 		x.accepted++
 		if hadNext != nil && hadNext.root != u.NextSyncCommitteeRoot {
 			x.reorgs++
+			if before.cr.End > per+2 {
+				x.outcome("reorg-rolled-back-later-periods")
+			}
 			// a replacement rolls back everything after the replaced period
 			if cr := x.chain.committees.periods; cr.End != per+2 {
 				x.fatal(rt, "after replacing committee %d the committee range is %v", per+1, cr)
@@ -827,19 +846,34 @@ func (x *c53Run) opSync(rt *rapid.T) {
 		x.opCheckpoint(rt, true)
 		return
 	}
-	par := x.stored(p)
-	if par == nil || len(par.children) == 0 {
-		x.opUpdate(rt)
-		return
-	}
-	var cands []*c53Upd
-	for _, g := range w.pool {
-		if g.parent == par {
-			cands = append(cands, g)
+	burst := rapid.IntRange(1, 3).Draw(rt, "burst")
+	for i := 0; i < burst; i++ {
+		if i > 0 {
+			x.check(rt)
+			p, _ = x.chain.NextSyncPeriod()
 		}
+		par := x.stored(p)
+		if par == nil || len(par.children) == 0 {
+			if i == 0 {
+				x.opUpdate(rt)
+			}
+			return
+		}
+		var cands, good []*c53Upd
+		for _, g := range w.pool {
+			if g.parent == par {
+				cands = append(cands, g)
+				if g.signers >= w.thr {
+					good = append(good, g)
+				}
+			}
+		}
+		if len(good) > 0 && rapid.IntRange(0, 3).Draw(rt, "preferSufficient") > 0 {
+			cands = good
+		}
+		g := cands[rapid.IntRange(0, len(cands)-1).Draw(rt, "edgeVariant")]
+		x.deliverUpdate(rt, "sync:"+g.parent.name+">"+g.child.name, g.u, g.child.body)
 	}
-	g := cands[rapid.IntRange(0, len(cands)-1).Draw(rt, "edgeVariant")]
-	x.deliverUpdate(rt, "sync:"+g.parent.name+">"+g.child.name, g.u, g.child.body)
 }
 
 func (x *c53Run) opUpdate(rt *rapid.T) {
@@ -1001,7 +1035,7 @@ func (x *c53Run) opCheckpoint(rt *rapid.T, genuine bool) {
 	w := x.w
 	hi := w.nper - 1
 	if _, init := x.chain.NextSyncPeriod(); !init && genuine {
-		hi = 3 // first checkpoint early, so that there is a chain to follow
+		hi = 2 // first checkpoint early, so that there is a chain to follow
 	}
 	q := w.p0 + uint64(rapid.IntRange(0, hi).Draw(rt, "cpPeriod"))
 	ver := rapid.SampledFrom([]string{"", "electra", "deneb"}).Draw(rt, "cpVersion")
@@ -1068,7 +1102,7 @@ func (x *c53Run) opFixed(rt *rapid.T) {
 		return
 	}
 	q := fr.End
-	if rapid.Bool().Draw(rt, "backward") && fr.Start > w.p0 {
+	if rapid.IntRange(0, 3).Draw(rt, "backward") > 0 && fr.Start > w.p0 {
 		q = fr.Start - 1
 	}
 	if w.A[q] == nil {
@@ -1282,7 +1316,7 @@ var c53Ops = []string{
 func c53Case(rt *rapid.T, st *vs.S) {
 	c := st.Case()
 	w := c53NewWorld(rt)
-	x := &c53Run{w: w, db: memorydb.New(), clock: new(mclock.Simulated)}
+	x := &c53Run{w: w, db: memorydb.New(), clock: new(mclock.Simulated), st: st}
 	// simulated system clock: a drawn position in (or beyond) the generated periods
 	k := rapid.SampledFrom([]int{0, 2, 4, 6, 8, 11, 11, 11, 11, 11, 11, 11, 11, 11}).Draw(rt, "clockPeriod")
 	startSlot := (w.p0+uint64(k))*c53SlotsPerPeriod + uint64(rapid.IntRange(0, c53SlotsPerPeriod-1).Draw(rt, "clockOff"))
@@ -1350,6 +1384,9 @@ func c53Case(rt *rapid.T, st *vs.S) {
 		c.Class("chain>=5")
 	}
 	c.Classf("enforceTime=%v", w.enforce)
+	for k := range x.outcomes { // histogram only; order irrelevant
+		c.Class(k)
+	}
 	c.Sample(nt, func() any {
 		n := len(x.oplog)
 		if n > 12 {
